@@ -19,7 +19,7 @@ BATTERY = ['', 't', 't t', 't t t', 't t t t t', 'x', 't x', 't t x t']
 
 
 def bodies(rule_names, items, maxseq=2, base_variants=(False, True)):
-    its = [i for i in items if i in rule_names or i in ('t', '[t]', '{t}') or (i[0] == '[' and i[1] in rule_names)]
+    its = [i for i in items if describe(i)[1] in rule_names + ('t', 'x', None)]
     seqs = []
     for n in range(1, maxseq + 1):
         seqs += [list(s) for s in itertools.product(its, repeat=n)]
@@ -32,12 +32,42 @@ def bodies(rule_names, items, maxseq=2, base_variants=(False, True)):
 
 # ------------------------------------------------------------ independent analysis
 
+ITEMS_WIDE = ('a', 'b', 't', "&t", "!x", '()', '&a', '!b', '(a)', '{b}', '{a}+', 'n:b', '[a]')
+
+
+def describe(it):
+    """item spelling -> (wrapper kind, inner: rule name | 't' | 'x' | None)"""
+    if it == '()':
+        return ('void', None)
+    if it.endswith('}+'):
+        return ('pclo', it[1:-2])
+    if it[0] == '[':
+        return ('opt', it[1:-1])
+    if it[0] == '{':
+        return ('clo', it[1:-1])
+    if it[0] == '(':
+        return ('group', it[1:-1])
+    if it[0] == '&':
+        return ('look', it[1:])
+    if it[0] == '!':
+        return ('nlook', it[1:])
+    if it.startswith('n:'):
+        return ('named', it[2:])
+    return ('plain', it)
+
+
+def item_callee(it, g):
+    inner = describe(it)[1]
+    return inner if inner in g else None
+
+
 def item_nullable(it, nul):
-    if it[0] in '[{':
+    kind, inner = describe(it)
+    if kind in ('void', 'opt', 'clo', 'look', 'nlook'):
         return True
-    if it == 't':
+    if inner in ('t', 'x'):
         return False
-    return it in nul
+    return inner in nul
 
 
 def analyse(g):
@@ -56,7 +86,7 @@ def analyse(g):
     for r, alts in g.items():
         for alt in alts:
             for it in alt:
-                callee = it if it in g else (it[1] if it[0] == '[' and it[1] in g else None)
+                callee = item_callee(it, g)
                 if callee:
                     graph[r].add(callee)
                     if callee in nul:
@@ -82,15 +112,17 @@ def build(g, lr=True):
     from tatsu import peg
 
     def item(it):
-        if it == 't':
-            return peg.Token(token='t')
-        if it == '[t]':
-            return peg.Optional(exp=peg.Token(token='t'))
-        if it == '{t}':
-            return peg.Closure(exp=peg.Token(token='t'))
-        if it[0] == '[':
-            return peg.Optional(exp=peg.Call(name=it[1]))
-        return peg.Call(name=it)
+        kind, inner = describe(it)
+        if kind == 'void':
+            return peg.Void()
+        e = peg.Token(token=inner) if inner in ('t', 'x') else peg.Call(name=inner)
+        if kind == 'plain':
+            return e
+        if kind == 'named':
+            return peg.Named(name='n', exp=e)
+        cls = {'opt': peg.Optional, 'clo': peg.Closure, 'pclo': peg.PositiveClosure, 'group': peg.Group, 'look': peg.Lookahead,
+               'nlook': peg.NegativeLookahead}[kind]
+        return cls(exp=e)
 
     rules = []
     for name, alts in g.items():
@@ -106,7 +138,7 @@ def build(g, lr=True):
 
 def gtext(g, lr=True):
     def item(it):
-        return {'t': "'t'", '[t]': "['t']", '{t}': "{'t'}"}.get(it, it)  # '[a]' renders as itself
+        return it.replace('t', "'t'").replace('x', "'x'")  # rule names are a, b, c; tokens t, x
     head = '' if lr else '@@left_recursion :: False\n\n'
     return head + '\n\n'.join(f"{r}: " + ' | '.join(' '.join(item(i) for i in alt) for alt in alts) + ' ;' for r, alts in g.items()) + '\n'
 
@@ -235,6 +267,10 @@ def families(tier):
     if tier == 'quick':
         b = [x for x in b if x[0][2] == 't']   # the tail item cannot matter for left calls unless both before are nullable
     fams.append(('2 rules, 3-item sequences with call bases', [{'a': x, 'b': y} for x in b for y in b[::3]] if tier == 'quick' else [{'a': x, 'b': y} for x in b for y in b]))
+    # family 4: 2 rules over the wider element alphabet (lookaheads, void, groups, closures of calls, named calls)
+    bw = bodies(('a', 'b'), ITEMS_WIDE)
+    bn = bodies(('a', 'b'), ('a', 'b', 't', '&t', '!a', '{a}+')) if tier == 'quick' else bw
+    fams.append(('2 rules, wide items (lookaheads, void, group, closures of calls, named)', [{'a': x, 'b': y} for x in bw for y in bn]))
     return fams
 
 
@@ -246,12 +282,12 @@ def run(rc):
         rc.pmap(shard, graphs)
         rc.coverage.setdefault('families', []).append({'family': name, 'graphs': len(graphs)})
     # control subset through tatsu.compile (text route)
-    control = fams[0][1][::29]
+    control = fams[0][1][::29] + fams[3][1][::101]
     rc.pmap(shard, control, text_control=True)
     rc.coverage['text_compiled_control_graphs'] = len(control)
     c = rc.total.counts
-    rc.rule = ('every rule graph of the listed families (bodies = sequences of 1-2 (3) items over {rule calls, t, [t], {t}} with optional `| t` '
-               'base), restricted as the property says to graphs with no call to a nullable rule in a left prefix; per graph: GrammarError under '
+    rc.rule = ('every rule graph of the listed families (bodies = sequences of 1-2 (3) items over {rule calls, t, [t], {t}, [call]} with optional `| t` '
+               'base; family 4 adds &t, !x, (), &call, !call, (call), {call}, {call}+, n:call), restricted as the property says to graphs with no call to a nullable rule in a left prefix; per graph: GrammarError under '
                '@@left_recursion::False iff the independent analysis finds a left cycle; non-cyclic rules memoized and not lrec; every rule as start x '
                f'{len(BATTERY)} inputs without RecursionError/hang; non-trivial = graph with a left cycle')
     rc.coverage.update({
